@@ -355,3 +355,16 @@ def test_c05_extents_as_small_numpy_integers():
     assert tuple(int(s) for s in a._strides) == (160, 8) and a._size == 8 + 16 + 16 + 3200
     a[19, 19] = 5.0
     assert type(a)._from_buffer(a._buffer, a._offset)[19, 19] == 5.0
+
+
+def test_c11_struct_update_keeps_the_room_of_every_part():
+    class S(xo.Struct):
+        a = xo.Int64[:]
+        b = xo.Int64[:]
+
+    s1 = S(a=[1, 2, 3], b=[4])
+    with pytest.raises(ValueError):
+        s1._update(S(a=[5], b=[6, 7, 8]))  # same total size, other split
+    assert list(s1.a.to_nparray()) == [1, 2, 3] and list(s1.b.to_nparray()) == [4]
+    s1._update(S(a=[7, 8, 9], b=[10]))
+    assert list(s1.a.to_nparray()) == [7, 8, 9] and list(s1.b.to_nparray()) == [10]
